@@ -218,10 +218,13 @@ class DataSaveable:
 
         """
         self.set_data_writable()
+        # with an axis the file is always a table of at least two columns;
+        # a table with a single row must stay two-dimensional
+        ndmin = 0 if with_axis is None else 2
         try:        
-            _data = numpy.loadtxt(filename)
+            _data = numpy.loadtxt(filename, ndmin=ndmin)
         except ValueError:
-            _data = numpy.loadtxt(filename, dtype=complex)
+            _data = numpy.loadtxt(filename, dtype=complex, ndmin=ndmin)
         
         self.data = self._extract_data_with_axis(_data, with_axis)
         self.set_data_protected()            
